@@ -7,7 +7,8 @@ PROP = {
     "level_text": ("Arrays: kernel-checked theorem over the fault-parametric model of momo::Array / ArrayShifter (Momo.ArrF): for every configuration, valid state, index, "
                    "count, range, value argument (incl. aliases) and every fault schedule, InsertVar / Insert (3 forms) / Remove (2 forms) either complete with the "
                    "fault-free state or throw leaving the representation invariant, count within capacity, exactly count constructed item objects, exactly the own "
-                   "block outstanding, nothing destroyed or deallocated twice, and the count between the old and the intended one. "
+                   "block outstanding, nothing destroyed or deallocated twice, and the count between the old and the intended one; the same for SegmentedArray "
+                   "(InsertVar, Insert n copies / range, Remove 2 forms; ledger = segments 0..segCount + the pointer-array block). "
                    "Kernel-checked theorems over the hash-table model for every bucket kind, hash function and number of coexisting generations: "
                    "MergeTo conserves src + dst as a multiset, leaves exactly the refused elements in the source, keeps destination keys distinct and "
                    "both tables valid; Remove(pred) removes exactly the selected elements; extraction transfers exactly one element. On the real "
@@ -36,6 +37,7 @@ PROP = {
         "Momo.ArrF.C10_array_valid_means",
         "Momo.ArrF.C10_shifter_stops_after_prefix",
         "Momo.ArrF.C10_shifter_programs_are_the_loops",
+        "Momo.ArrF.Seg.C10_segarray_basic_every_fault",
         "Momo.BTreeF.C10_tree_insertRange_basic",
         "Momo.BTreeF.C10_tree_removeIf_basic",
         "Momo.BTreeF.C10_tree_merge_conserves",
@@ -48,6 +50,7 @@ PROP = {
         {"name": "c10_arrfault_2", "src": "c04_arrfault.cpp", "sanitize": "asan", "flags": ["-DAF_PART=2"], "timeout_quick": 600},
         {"name": "c10_arrfault_3", "src": "c04_arrfault.cpp", "sanitize": "asan", "flags": ["-DAF_PART=3"], "timeout_quick": 600},
         {"name": "c10_arrfault_4", "src": "c04_arrfault.cpp", "sanitize": "asan", "flags": ["-DAF_PART=4"], "timeout_quick": 600},
+        {"name": "c10_segfault_2", "src": "c04_segfault.cpp", "sanitize": "asan", "flags": ["-DSF_PART=2"], "timeout_quick": 600},
     ] + [
         {"name": "c10_treefault_%d" % k, "src": "c04_treefault.cpp", "sanitize": "asan", "flags": ["-DTF_PART=%d" % k], "timeout_quick": 600}
         for k in range(1, 6)
@@ -68,6 +71,6 @@ PROP = {
              "nothing lost from the destination, nothing gained by the source, element-object count) runs beside it. "
              "distinct_nontrivial = distinct (operation instance, fault kind, k) that raised."),
     "runtime_only": ["ASan/UBSan", "memory-manager ledger and element counters after every case"],
-    "not_modelled": ["arrays: SegmentedArray positional insert/remove under faults (sweeps only); throwing item filters; Insert for input iterators",
+    "not_modelled": ["arrays: throwing item filters; Insert for input iterators",
                      "faults inside a hash-table merge and in merges between a B-tree and a hash table (sweeps only)", "B-trees: see C04 (Momo.BTreeF) - pools behind Node::Create, Remove(range) / multi-key Remove(key) under faults, documented exception 5 excluded from the bulk theorems", "stdish wrappers' element-wise migration between unequal allocators (C14 harness)"],
 }
